@@ -73,6 +73,11 @@ def gen_cases(tier, seed):
         cases.append({'kind': 'make', 'fn': 'make', 'content': '1', 'kw': {'version': v, 'eci': True}, 'tag': 'excluded'})
         cases.append({'kind': 'make', 'fn': 'make', 'content': '汉', 'kw': {'version': v, 'mode': 'hanzi'}, 'tag': 'excluded'})
         cases.append({'kind': 'make', 'fn': 'make_sequence', 'content': '1', 'kw': {'version': v}, 'tag': 'excluded'})
+        for sc in (1, 2, 3, 16):
+            for content in ('12345678901234567890', 'ABCDEFGHIJKLMNOPQRSTUVWXYZ', 'abcdefghijklmnopqrstuvwxyz'):
+                cases.append({'kind': 'make', 'fn': 'make_sequence', 'content': content,
+                              'kw': dict({'version': v, 'symbol_count': sc}, **({'error': 'M'} if sc == 2 else {})),
+                              'tag': 'excluded'})
         cases.append({'kind': 'make', 'fn': 'make', 'content': '1', 'kw': {'version': v, 'micro': False}, 'tag': 'excluded'})
         for m in (4, 7, '5'):
             cases.append({'kind': 'make', 'fn': 'make', 'content': '1', 'kw': {'version': v, 'mask': m}, 'tag': 'excluded'})
